@@ -414,6 +414,55 @@ pub fn ctor_case(route: usize, text: &str) -> Result<(), (String, String)> {
     Ok(())
 }
 
+/// The decoders are constructors too ("through every constructor and conversion"): a decoded text of at most 16
+/// bytes is stored in the handle, without an allocator request of the crate. kind: 0 from_utf16, 1 from_utf16_lossy,
+/// 2 from_utf8_lossy (valid input), 3 from_utf8_lossy (input = text + 0xFF), 4 from_utf16_lossy (input = text + 0xD800)
+pub const DECODERS: [&str; 5] = ["from_utf16", "from_utf16_lossy", "from_utf8_lossy", "from_utf8_lossy_invalid_tail", "from_utf16_lossy_lone_surrogate"];
+pub fn decoder_case(kind: usize, text: &str) -> Result<bool, (String, String)> {
+    let mut units: Vec<u16> = text.encode_utf16().collect();
+    let mut bytes: Vec<u8> = text.as_bytes().to_vec();
+    let mut want = text.to_string();
+    match kind {
+        3 => {
+            bytes.push(0xFF);
+            want.push('\u{FFFD}');
+        }
+        4 => {
+            units.push(0xD800);
+            want.push('\u{FFFD}');
+        }
+        _ => {}
+    }
+    if want.len() > 16 {
+        return Ok(false);
+    }
+    shadow::with(|h| h.begin_case());
+    let s = match kind {
+        0 => match LeanString::from_utf16(&units) {
+            Ok(s) => s,
+            Err(_) => return Err(("C16.decode".into(), format!("from_utf16 rejected the encoding of {text:?}"))),
+        },
+        1 | 4 => LeanString::from_utf16_lossy(&units),
+        _ => LeanString::from_utf8_lossy(&bytes),
+    };
+    let req = requests();
+    let r = if s.as_str() != want {
+        Err(("C16.decode".to_string(), format!("{} of {text:?} reads {:?}", DECODERS[kind], s.as_str())))
+    } else if req != 0 || s.is_heap_allocated() {
+        Err((
+            "C09.short_no_alloc".to_string(),
+            format!("{} producing the {}-byte text {want:?}: {req} allocator request(s), is_heap_allocated = {}", DECODERS[kind], want.len(), s.is_heap_allocated()),
+        ))
+    } else {
+        Ok(true)
+    };
+    drop(s);
+    shadow::with(|h| {
+        h.end_case();
+    });
+    r
+}
+
 fn short_value_case<T: ToLeanString + std::fmt::Display>(v: T, what: &str) -> Result<bool, (String, String)> {
     shadow::with(|h| h.begin_case());
     let want = v.to_string();
@@ -530,6 +579,24 @@ pub fn c09(tier: Tier, seed: u64) -> Verdict {
                     }
                 }
             }
+            if t.len() <= 16 {
+                for kind in 0..DECODERS.len() {
+                    m.evaluations += 1;
+                    match decoder_case(kind, t) {
+                        Ok(true) => {
+                            m.distinct.insert(digest(&("decoder", kind, t.len(), t.as_bytes().last().map(|b| b >> 4))));
+                        }
+                        Ok(false) => {}
+                        Err((clause, detail)) => {
+                            if clause.starts_with("C09") {
+                                m.violation = Some(Violation { case: json!({"kind": "decoder", "decoder": kind, "text": t}), clause, step: 0, detail });
+                                break 'o;
+                            }
+                            m.abandoned_foreign += 1;
+                        }
+                    }
+                }
+            }
             if m.samples.is_empty() && t.len() == 16 {
                 m.samples.push(json!({"kind": "ctor", "route": "from_str", "text": t}));
             }
@@ -613,7 +680,7 @@ pub fn c09(tier: Tier, seed: u64) -> Verdict {
         tier,
         seed,
         "exploration",
-        "constructor sweep: every mix of 1/2/3/4-byte characters for every byte length 0..=16 (compositions; quick thins lengths 13-14), every possible final byte 0x00..=0xBF at lengths 16, 15, 8, 2, 1 (ASCII finals and continuation finals of 2-, 3-, 4-byte characters), lengths 17..=64 and 100..70000, through From<&str>, From<String>, From<&String>, From<Box<str>>, From<Cow> (both arms), FromStr, from_utf8, String::to_lean_string, from_static_str, from_utf8_unchecked; chars (all below U+3000 and a stride above), bools, every integer type at 10^k+-1; then proptest edit histories over inline strings (push, push_str, insert, insert_str, pop, remove, retain, truncate, clear with texts <= 16 bytes); oracle: zero allocator requests and !is_heap_allocated for <= 16 bytes, exactly one allocation of >= len bytes and capacity == len above; non-trivial: all; distinct = (route, length, final-byte class) and history digests",
+        "constructor sweep: every mix of 1/2/3/4-byte characters for every byte length 0..=16 (compositions; quick thins lengths 13-14), every possible final byte 0x00..=0xBF at lengths 16, 15, 8, 2, 1 (ASCII finals and continuation finals of 2-, 3-, 4-byte characters), lengths 17..=64 and 100..70000, through From<&str>, From<String>, From<&String>, From<Box<str>>, From<Cow> (both arms), FromStr, from_utf8, String::to_lean_string, from_static_str, from_utf8_unchecked; every text of at most 16 bytes also as the output of from_utf16, from_utf16_lossy (also with a lone surrogate appended) and from_utf8_lossy (also with an invalid byte appended): no request of the crate's allocator, not heap allocated; chars (all below U+3000 and a stride above), bools, every integer type at 10^k+-1; then proptest edit histories over inline strings (push, push_str, insert, insert_str, pop, remove, retain, truncate, clear with texts <= 16 bytes); oracle: zero allocator requests and !is_heap_allocated for <= 16 bytes, exactly one allocation of >= len bytes and capacity == len above; non-trivial: all; distinct = (route, length, final-byte class) and history digests",
         ASSUME_HIST,
         &merged,
         t0.elapsed().as_secs_f64(),
@@ -969,6 +1036,7 @@ pub fn replay_sweep(kind: &str, case: &Value) -> Option<Vec<(usize, String, Stri
             let route = ROUTES.iter().position(|r| Some(*r) == case.get("route").and_then(|v| v.as_str()))?;
             ctor_case(route, case.get("text")?.as_str()?)
         }
+        "decoder" => decoder_case(u("decoder")?, case.get("text")?.as_str()?).map(|_| ()),
         "global_refusal" => global_refusal_case(u("entry")?, case.get("k").and_then(|v| v.as_u64())).map(|_| ()),
         "short_value" => {
             let ty = case.get("ty")?.as_str()?;
